@@ -9,6 +9,7 @@ inductive Obj where
   | tss (x : TSS)
   | tsd (x : TSD)
   | tsw (w : Win)
+  | tsl (x : Fixed)
 
 def insSorted (le : α → α → Bool) (a : α) : List α → List α
   | [] => [a]
@@ -56,6 +57,15 @@ def dumpTsw (w : Win) (t : Time) : String :=
   let d := if modif && w.size != 0 then toString (w.elemAt (w.size - 1)).1 else "none"
   s!"lmt={w.lmt} mod={b2s modif} valid={b2s w.valid} allvalid={b2s w.allValid} n={w.size} full={b2s w.full} v={brack (w.values.map toString)} times={brack (w.times.map toString)} ev={ev} clr={b2s clr} d={d}"
 
+def dumpTsl (x : Fixed) (t : Time) : String :=
+  let idx := (List.range x.kids.length).map fun i => (i, x.kids.getD i (0, 0))
+  let v := (idx.filter fun p => p.2.2 != 0).map fun p => s!"{p.1}:{p.2.1}"
+  let vv := x.kids.map fun p => toString p.1
+  let m := (idx.filter fun p => t != 0 && p.2.2 == t).map fun p => s!"{p.1}:{p.2.1}"
+  let d := if x.modifiedAt t then brack ((idx.filter fun p => p.2.2 == x.lmt).map fun p => s!"{p.1}:{p.2.1}") else "none"
+  let allv := x.lmt != 0 && x.kids.all (fun p => p.2 != 0)
+  s!"lmt={x.lmt} mod={b2s (x.modifiedAt t)} valid={b2s (x.lmt != 0)} allvalid={b2s allv} n={x.kids.length} v={brack v} vv={brack vv} m={brack m} d={d}"
+
 def slotsStr (sl : List Slot) (withMod : Bool) : String :=
   let idx := (List.range sl.length).map fun i => (i, sget sl i)
   let occ := (idx.filter fun p => p.2.st != .free).map fun p =>
@@ -74,6 +84,22 @@ def step (o : Obj) (ws : List String) : Obj × String :=
     match p.toNat?, m.toNat? with
     | some p, some m => if p == 0 then (o, "bad-op") else (.tsw (Win.init p m), "ok")
     | _, _ => (o, "bad-op")
+  | _, ["tsl", n] =>
+    match n.toNat? with
+    | some n => if n == 0 || n > 64 then (o, "bad-op") else (.tsl (Fixed.init n), "ok")
+    | none => (o, "bad-op")
+  | .tsl x, ["lset", t, i, v] =>
+    match t.toNat?, i.toNat?, v.toInt? with
+    | some t, some i, some v =>
+      if i ≥ x.kids.length then (o, "err:range")
+      else if t == 0 then (o, "err:invalid-arg")
+      else (.tsl (x.write i t v), "ok")
+    | _, _, _ => (o, "bad-op")
+  | .tsl x, ["dump", t] =>
+    match t.toNat? with
+    | some t => (o, dumpTsl x t)
+    | none => (o, "bad-op")
+  | .tsl _, ["slots"] => (o, "-")
   | .tss x, [op, t, k] =>
     match t.toNat?, k.toInt? with
     | some t, some k =>
